@@ -23,6 +23,7 @@ from sa.pyfront import Program
 from sa.symex import Interp, flat_guards
 
 RULES = {
+    "R-C06-n": "forced views: get(key, force=True) of a common-valued key returns common_rowids(<the key's own column>), and items(force=True) appends ((common,), common_rowids()) for a 1-D index or ((common, c), common_rowids(c)) for EVERY column c of a 2-D one, after the explicit entries",
     "R-C06-m": "an optional parameter that holds a category value or a column number (new_common, common, colindex) is tested with `is None`, never by truthiness: 0 is a legal - and the most usual - value",
     "R-C06-l": "collapsed: the dtype of the output array is chosen from a collection that contains every value the method can write into it (the fill value and every precedence code), not from a filtered subset",
     "R-C06-k": "no operation leaves an explicit entry under the common value (imported from the C07 analysis): such an entry is invisible to to_array but is overwritten by the next common-value move, after which the dense values differ from NumPy's",
@@ -224,6 +225,52 @@ def rule_c(prog, rep):
     n = fit_dtype_sites(prog, ["iindex.collapsed"], rep, "R-C06-c",
                         lambda q: {"inputs": "the method's own docstring example: M.collapsed([1, 0, -1]) raises OverflowError"})
     rep.floor("R-C06-c", 2, n)
+
+
+def rule_n(prog, rep):
+    self_t = tm.param("self")
+    common = tm.T("attr", self_t, "common")
+    # ---- get
+    fi = prog.func("iindexes", "iindex.get")
+    I = Interp(prog, hints.param_types_for("iindexes"), hints.FIELD_TYPES, inline=False)
+    I.run(fi)
+    key = tm.param(fi.params()[1])
+    calls = [e for e in I.events if e.kind == "call" and e["method"] == "common_rowids" and not e.stack]
+    rest = tm.T("sub", key, tm.T("slice", tm.const(1), tm.NONE, tm.NONE))
+    okg = bool(calls) and all(len(e["args"]) == 1 and e["args"][0].op == "starred" and e["args"][0].args[0] == rest for e in calls)
+    rep.check(okg, "R-C06-n", fi.fq, "get(force): common rows of the key's own column: common_rowids(*key[1:])", "", "common_rowids is called with %s" % [tm.show(a)[:30] for e in calls for a in e["args"]],
+              witness={"inputs": "2-D index: idx.get((common, 1), force=True) returns the common rows of column 0 / of no column"})
+    guarded = bool(calls) and all(any(tm.contains(c, lambda x: x.op == "cmp" and x.args[0] == "==" and common in x.args[1:]) and pol for c, pol in e.guards) for e in calls)
+    rep.check(guarded, "R-C06-n", fi.fq, "get(force): the common rows are returned only for a key whose value is the common value", "", "the force path is not guarded by key[0] == self.common")
+    # ---- items
+    fi = prog.func("iindexes", "iindex.items")
+    I = Interp(prog, hints.param_types_for("iindexes"), hints.FIELD_TYPES, inline=False)
+    fr = I.run(fi)
+    forced = [v for v, g in fr.returns if any(c == tm.param(fi.params()[1]) and pol for c, pol in g)]
+    if len(forced) != 1 or not (forced[0].op == "call" and tm.callee_name(forced[0]) == "itertools.chain" and len(forced[0].args[1]) == 2):
+        rep.undecided("R-C06-n", fi.fq, "items(force)", "the forced result is not chain(<explicit items>, <common items>)")
+        return
+    explicit, commons = forced[0].args[1]
+    rep.check(explicit.op == "call" and tm.callee_name(explicit) in (".items", "builtins.dict.items") and explicit.args[0].args[0].op in ("super", "param"), "R-C06-n", fi.fq,
+              "items(force): the explicit entries come first", "", "first part is %s" % tm.show(explicit)[:40])
+    alts = tm.alts(commons)
+    one = [a for a in alts if a.op == "comp" and a.args[1].op == "tuple" and a.args[1].args[0].op == "tuple" and len(a.args[1].args[0].args) == 1]
+    two = [a for a in alts if a.op == "comp" and a.args[1].op == "tuple" and a.args[1].args[0].op == "tuple" and len(a.args[1].args[0].args) == 2]
+    ok1 = len(one) == 1 and one[0].args[1].args[0].args[0] == common and one[0].args[1].args[1].op == "call" and tm.callee_name(one[0].args[1].args[1]) == ".common_rowids" and not one[0].args[1].args[1].args[1]
+    rep.check(ok1, "R-C06-n", fi.fq, "items(force), 1-D: ((common,), common_rowids())", "", "1-D forced item is %s" % (one and tm.show(one[0].args[1])[:60]))
+    ok2 = False
+    why = "no 2-D forced item"
+    if len(two) == 1:
+        k, v = two[0].args[1].args
+        col = k.args[1]
+        lid = two[0].args[2][0] if two[0].args[2] else None
+        it = I.loopinfo[lid].get("iter") if lid else None
+        all_cols = it is not None and it.op == "call" and tm.callee_name(it) == "builtins.range" and it.args[1] == (tm.T("sub", tm.T("attr", self_t, "shape"), tm.const(1)),)
+        same_col = v.op == "call" and tm.callee_name(v) == ".common_rowids" and v.args[1] == (col,) and col.op == "iter"
+        ok2 = k.args[0] == common and all_cols and same_col
+        why = "columns enumerated by %s; rows from common_rowids(%s) under key column %s" % (it is not None and tm.show(it)[:30], v.op == "call" and [tm.show(a)[:20] for a in v.args[1]], tm.show(col)[:20])
+    rep.check(ok2, "R-C06-n", fi.fq, "items(force), 2-D: ((common, c), common_rowids(c)) for every column c in range(shape[1])", "", why,
+              witness={"inputs": "2-D index: to_dict(force=True) misses the common rows of a column / reports another column's rows"})
 
 
 CATEGORY_PARAMS = {"iindex.shift_common": ("new_common",), "column_stack": ("new_common",), "iindex.from_array": ("common",), "iindex.common_rowids": ("colindex",)}
@@ -694,6 +741,7 @@ def main(tier):
     rule_j(prog, rep)
     rule_l(prog, rep)
     rule_m(prog, rep)
+    rule_n(prog, rep)
     import c07
     sub7 = core.Report("C07", level="other", rules=c07.RULES, tier=tier)
     ii7 = prog.cls("iindexes", "iindex")
